@@ -48,6 +48,88 @@ theorem frag_optKeyword_no (kw : List Nat) :
     simp only [hu, Bool.false_eq_true, if_false, bind_run, pushBack_run, pure_run]
   · simp [PS.stream] at hs1 ⊢; exact hs1
 
+/-- the stream does not start with the class-definition keyword `kw` followed by `:` -/
+def kwNoOf (kw : List Nat) : List Tok → Prop
+  | t1 :: t2 :: _ => isIdent t1 kw = false ∨ (t2.typ == tColon) = false
+  | [t1] => isIdent t1 kw = false
+  | [] => False
+
+theorem kwNoOf_append (kw : List Nat) (X Y : List Tok) (h : kwNoOf kw X) : kwNoOf kw (X ++ Y) := by
+  cases X with
+  | nil => exact absurd h id
+  | cons t1 X1 =>
+    cases X1 with
+    | nil =>
+      cases Y with
+      | nil => exact h
+      | cons y Y' => exact Or.inl h
+    | cons t2 X2 => exact h
+
+theorem kwNoOf_head (kw : List Nat) (X : List Tok) (t : Tok) (h : X.head? = some t) (hi : isIdent t kw = false) :
+    kwNoOf kw X := by
+  cases X with
+  | nil => cases h
+  | cons t1 X1 =>
+    simp at h; subst h
+    cases X1 with
+    | nil => exact hi
+    | cons t2 X2 => exact Or.inl hi
+
+/-- a non-empty run of items none of which is `:`, followed by an item that is not `:` -/
+theorem kwNoOf_run (kw : List Nat) (T1 T2 : List Tok) (a : Tok) (hne : T1 ≠ []) (h1 : ∀ t ∈ T1, (t.typ == tColon) = false)
+    (h2 : T2.head? = some a) (ha : (a.typ == tColon) = false) : kwNoOf kw (T1 ++ T2) := by
+  cases T1 with
+  | nil => exact absurd rfl hne
+  | cons t1 X1 =>
+    cases X1 with
+    | nil =>
+      cases T2 with
+      | nil => cases h2
+      | cons b T2' => simp at h2; subst h2; exact Or.inr ha
+    | cons t2 X2 => exact Or.inr (h1 t2 (by simp))
+
+theorem runs_optKeyword_no_then {β : Type} (kw : List Nat) (k : Bool → PM β) (X : List Tok) (r : β) (P : Tok → Prop)
+    (h : kwNoOf kw X) (hr : Runs (k false) X r P) : Runs (optionalKeyword kw >>= k) X r P := by
+  intro s t rest hs ht
+  cases X with
+  | nil => exact absurd h id
+  | cons t1 X1 =>
+    obtain ⟨s1, e1, hs1⟩ := readItem_stream s t1 _ (by simpa using hs)
+    by_cases hi : isIdent t1 kw = true
+    · cases X1 with
+      | nil => simp [kwNoOf, hi] at h
+      | cons t2 X2 =>
+        have hcol : (t2.typ == tColon) = false := by
+          rcases h with h | h
+          · rw [hi] at h; cases h
+          · exact h
+        obtain ⟨s2, e2, hs2⟩ := readItem_stream s1 t2 _ (by simpa using hs1)
+        obtain ⟨s', e', hs'⟩ := hr { s2 with backlog := t1 :: t2 :: s2.backlog } t rest
+          (by simp [PS.stream] at hs2 ⊢; simp [hs2]) ht
+        refine ⟨s', ?_, hs'⟩
+        rw [bind_run]
+        unfold optionalKeyword
+        rw [bind_run, e1]
+        simp only [hi, if_true]
+        unfold peek
+        rw [bind_run, bind_run, e2]
+        simp only [bind_run, pushBack_run, pure_run, hcol, Bool.false_eq_true, if_false]
+        exact e'
+    · have hi' : isIdent t1 kw = false := by simpa using hi
+      obtain ⟨s', e', hs'⟩ := hr { s1 with backlog := t1 :: s1.backlog } t rest
+        (by simp [PS.stream] at hs1 ⊢; simp [hs1]) ht
+      refine ⟨s', ?_, hs'⟩
+      rw [bind_run]
+      unfold optionalKeyword
+      rw [bind_run, e1]
+      simp only [hi', Bool.false_eq_true, if_false, bind_run, pushBack_run, pure_run]
+      exact e'
+
+theorem frag_optKeyword_no_then {β : Type} (kw : List Nat) (k : Bool → PM β) (ps : List Piece) (y : β)
+    (P : Tok → Prop) (N : Option Nat → Prop) (h : ∀ line, kwNoOf kw (mkToks line ps))
+    (hb : Frag (k false) ps y P N) : Frag (optionalKeyword kw >>= k) ps y P N :=
+  ⟨hb.chain, hb.canon, fun line => runs_optKeyword_no_then kw k _ y P (h line) (hb.runs line)⟩
+
 theorem frag_takeIf_no (p : Tok → Bool) : Frag (takeIf p) [] none (fun t => p t = false) anyNext :=
   ⟨fun _ _ => trivial, by simp [render], fun _ => runs_takeIf_no p⟩
 
